@@ -69,9 +69,9 @@ def tap_tokens(toks, idx, spks, values, f, ext, annex, script, lv, cs):
                                                 "None" if cs is None else str(cs)])
 
 
-def check_tx(c, tx, flags, all_idx=True):
+def check_tx(c, tx, flags, all_idx=True, eps=None):
     toks = gen.tx_tokens(tx)
-    eps = entry_points(c, tx)
+    eps = eps or entry_points(c, tx)
     nin, nout = len(tx.vin), len(tx.vout)
     idxs = list(range(nin + 1)) if (all_idx and nin <= 8) else sorted({0, nin - 1, nin, min(nout, nin - 1), c.rng.randrange(nin)})
     sc = gen.gen_script(c.rng)
@@ -129,6 +129,12 @@ def explore(c, n, big):
         small = len(tx.vin) <= 8
         flags = VALID + c.rng.sample(INVALID, 2) if small else [c.rng.choice(VALID), c.rng.choice(VALID)]
         check_tx(c, tx, flags)
+        if k % 3 == 0:
+            # the transaction-object entry point on a (partially) signed transaction: scriptSigs and witnesses of the
+            # other inputs are present and must not enter the digest (legacy blanks them; BIP143/341 never hash them)
+            stx = gen.gen_tx(c.rng, max_in=5, max_out=4)
+            c.tally("entry:tx-signed")
+            check_tx(c, stx, c.rng.sample(VALID, 3) + c.rng.sample(INVALID, 1), eps=[("tx-signed", stx)])
         if k % 10 == 9:
             c.flush()
     c.flush()
